@@ -43,7 +43,9 @@ fn main() {
             let kind = a.rest[0].clone();
             let shard: u64 = a.rest.get(1).map(|s| s.parse().unwrap()).unwrap_or(0);
             let nshards: u64 = a.rest.get(2).map(|s| s.parse().unwrap()).unwrap_or(1);
-            let info = amf::generate(&kind, &a.tier, a.seed, shard, nshards, &a.out);
+            // vharness amf gen <shard> <nshards> <encodings.ndjson> --out FILE : reference encodings printed by TLC (Gen_Amf0.tla)
+            let info = if kind == "gen" { amf::generate_from_file(&a.rest[3], shard, nshards, &a.out) }
+                       else { amf::generate(&kind, &a.tier, a.seed, shard, nshards, &a.out) };
             println!("{}", info);
         }
         "msg" => {
